@@ -134,9 +134,10 @@ DoCas(t, x, e, d, site, M(_), K(_, _)) ==
      THEN /\ ms' = ScAfter(RmwEff(ScBefore(ms, t, mo), t, x, d, mo, KeepAll), t, mo)
           /\ ev' = [NoEv EXCEPT !.t = t, !.k = "cas", !.site = site, !.mo = mo, !.loc = LocName(x), !.i = LocIdx(x), !.v = old, !.a = e, !.b = d, !.ok = TRUE]
           /\ K(TRUE, old)
-     ELSE /\ ms' = CasFailEff(ms, t, x, mo)
-          /\ ev' = [NoEv EXCEPT !.t = t, !.k = "cas", !.site = site, !.mo = mo, !.loc = LocName(x), !.i = LocIdx(x), !.v = old, !.a = e, !.b = d, !.ok = FALSE]
-          /\ K(FALSE, old)
+     ELSE LET mf == M(site \o "_f")   \* the failure order is a site of its own
+          IN /\ ms' = LoadEff(ms, t, x, Len(ms.mem[x]), mf)
+             /\ ev' = [NoEv EXCEPT !.t = t, !.k = "cas", !.site = site \o "_f", !.mo = mf, !.loc = LocName(x), !.i = LocIdx(x), !.v = old, !.a = e, !.b = d, !.ok = FALSE]
+             /\ K(FALSE, old)
 
 DoFence(t, site, M(_)) ==
   LET mo == M(site)
